@@ -80,7 +80,7 @@ func runC15(c *Ctx) {
 	opss := []*Node{nil, refcbor.NArr(), refcbor.NArr(i64(1)), refcbor.NArr(i64(2)), refcbor.NArr(i64(1), i64(2)), refcbor.NArr(refcbor.NTstr("sign")), refcbor.NArr(refcbor.NTstr("verify"), i64(1)),
 		refcbor.NArr(i64(3)), refcbor.NArr(i64(77), i64(2)), refcbor.NArr(refcbor.NTstr("bogus"))}
 	opsNames := []string{"absent", "empty", "sign", "verify", "sign+verify", "text-sign", "text-verify+sign", "encrypt", "unknown+verify", "bogus-text"}
-	coordKinds := []string{"absent", "empty", "size-1", "size", "size+1", "wrongtype"}
+	coordKinds := []string{"absent", "empty", "size-1", "size", "size+1", "wrongtype", "2xsize"}
 
 	// coordinate node for (kty, crv, which, kind); the consistent triple of one real key is used
 	// whenever all three are "size"; "size-1" takes the key whose that coordinate is short.
@@ -95,7 +95,7 @@ func runC15(c *Ctx) {
 			}
 		}
 	}
-	rec.Extra("wire_grid_cells", len(jobs)*216)
+	rec.Extra("wire_grid_cells", len(jobs)*343)
 	mon.Parallel(c.Workers, len(jobs), func(w, ji int) {
 		j := jobs[ji]
 		kty, _ := ktys[j.kty].Int64()
@@ -110,9 +110,9 @@ func runC15(c *Ctx) {
 			curveIdx = int(v - 1)
 		}
 		size := c15sizes[curveIdx]
-		for xk := 0; xk < 6; xk++ {
-			for yk := 0; yk < 6; yk++ {
-				for dk := 0; dk < 6; dk++ {
+		for xk := 0; xk < 7; xk++ {
+			for yk := 0; yk < 7; yk++ {
+				for dk := 0; dk < 7; dk++ {
 					// pick the base key pair
 					base := mat.full[curveIdx]
 					kinds := [3]int{xk, yk, dk}
@@ -165,7 +165,10 @@ func runC15(c *Ctx) {
 						case 4:
 							n = refcbor.NBstr(append([]byte{0}, full...))
 						case 5:
-							n = mon.Pick(r.Sub(uint64(ji*216+xk*36+yk*6+dk)), refcbor.NInt(5), refcbor.NTstr("x"), refcbor.NArr(refcbor.NInt(1)))
+							n = mon.Pick(r.Sub(uint64(ji*343+xk*49+yk*7+dk)), refcbor.NInt(5), refcbor.NTstr("x"), refcbor.NArr(refcbor.NInt(1)))
+						case 6:
+							// twice the size (e.g. Go's 64-byte seed||public form of an Ed25519 private key)
+							n = refcbor.NBstr(append(append([]byte{}, full...), full...))
 						}
 						entries = append(entries, gen.KeyEntry{Label: i64(label), Value: n})
 					}
@@ -260,6 +263,45 @@ func runC15(c *Ctx) {
 					}
 				}
 			}
+		}
+	}
+	// Go keys on curves the COSE_Key conversion does not support must be refused, not silently
+	// relabelled as a supported curve of the same size
+	secp256k1 := &elliptic.CurveParams{Name: "secp256k1", BitSize: 256}
+	secp256k1.P, _ = new(big.Int).SetString("fffffffffffffffffffffffffffffffffffffffffffffffffffffffefffffc2f", 16)
+	secp256k1.N, _ = new(big.Int).SetString("fffffffffffffffffffffffffffffffebaaedce6af48a03bbfd25e8cd0364141", 16)
+	secp256k1.B = big.NewInt(7)
+	secp256k1.Gx, _ = new(big.Int).SetString("79be667ef9dcbbac55a06295ce870b07029bfcdb2dce28d959f2815b16f81798", 16)
+	secp256k1.Gy, _ = new(big.Int).SetString("483ada7726a3c4655da4fbfc0e1108a8fd17b448a68554199c47d08ffb10d4b8", 16)
+	p256copy := *elliptic.P256().Params()
+	p256copy.Name = "private-copy-of-P-256-params"
+	for name, cv := range map[string]elliptic.Curve{"P-224": elliptic.P224(), "secp256k1": secp256k1, "generic-CurveParams-256": &p256copy,
+		"generic-384": func() elliptic.Curve { c := *elliptic.P384().Params(); return &c }(), "generic-521": func() elliptic.Curve { c := *elliptic.P521().Params(); return &c }()} {
+		pub := &ecdsa.PublicKey{Curve: cv, X: new(big.Int).Set(cv.Params().Gx), Y: new(big.Int).Set(cv.Params().Gy)}
+		priv := &ecdsa.PrivateKey{PublicKey: *pub, D: big.NewInt(1)}
+		in := map[string]any{"go_key_curve": name}
+		var k1, k2 *cose.Key
+		var e1, e2 error
+		if guard(rec, "NewKeyFrom*", in, func() {
+			k1, e1 = cose.NewKeyFromPublic(pub)
+			k2, e2 = cose.NewKeyFromPrivate(priv)
+		}) {
+			continue
+		}
+		rec.Eval(2)
+		rec.Class("unsupported-go-curve/" + name)
+		for _, kk := range []*cose.Key{k1, k2} {
+			if kk == nil {
+				continue
+			}
+			_, se := kk.Signer()
+			_, ve := kk.Verifier()
+			if se == nil || ve == nil {
+				rec.Violate("gate", "unsupported-go-curve/"+name, "a Go key on an unsupported curve was converted to a COSE_Key that yields a signer or verifier", in)
+			}
+		}
+		if name != "generic-CurveParams-256" && name != "generic-384" && name != "generic-521" && (e1 == nil || e2 == nil) {
+			rec.Violate("unsupported-curve-accepted", name, fmt.Sprintf("NewKeyFromPublic/NewKeyFromPrivate accepted a key on %s (errors: %v, %v)", name, e1, e2), in)
 		}
 	}
 	rec.Require("accepted", 2000)
